@@ -943,3 +943,51 @@ Proof.
   change (keepsel t [] []) with (@nil nat) in O1, O2. rewrite O1, O2.
   eapply tview_agree; [exact Hne | exact G].
 Qed.
+
+(** * Open spans (closed flags) *)
+
+Lemma open_from_skipn sym : forall l base k,
+  skipn k (open_from sym base l) = open_from sym (base + k) (skipn k l).
+Proof.
+  induction l as [|x l IH]; intros base k.
+  - rewrite !skipn_nil. reflexivity.
+  - destruct k as [|k]; [rewrite Nat.add_0_r; reflexivity|].
+    cbn [open_from skipn]. rewrite IH. replace (S base + k)%nat with (base + S k)%nat by lia. reflexivity.
+Qed.
+
+Lemma open_from_length sym : forall l base, List.length (open_from sym base l) = List.length l.
+Proof. induction l as [|x l IH]; intros base; cbn; [reflexivity | rewrite IH; reflexivity]. Qed.
+
+Lemma nth_skipn_hd {X} (l : list X) k d : nth k l d = hd d (skipn k l).
+Proof. revert k; induction l as [|x l IH]; intros [|k]; cbn; auto. Qed.
+
+Lemma nth_skipn_shift {X} (l : list X) k j d : nth j (skipn k l) d = nth (k + j) l d.
+Proof. revert k; induction l as [|x l IH]; intros [|k]; cbn; auto. destruct j; reflexivity. Qed.
+
+(** a span is open iff it has a live handle, is entered on some thread, or has an open child *)
+Lemma a_open_char a k :
+  (k < List.length (a_spans a))%nat ->
+  (a_open a k = true <->
+   live (a_sym a) k = true \/ on_any_stack (a_sym a) k = true \/
+   exists c x, (k < c)%nat /\ nth_error (a_spans a) c = Some x /\ as_lparent x = Some k /\ a_open a c = true).
+Proof.
+  intros Hk. unfold a_open, open_flags.
+  rewrite (nth_skipn_hd (open_from (a_sym a) 0 (a_spans a)) k false), open_from_skipn. cbn [Nat.add].
+  destruct (skipn k (a_spans a)) as [|x tl] eqn:Es.
+  { apply (f_equal (@List.length _)) in Es. rewrite skipn_length in Es. cbn in Es. lia. }
+  assert (Htl : skipn (S k) (a_spans a) = tl) by (eapply skipn_tail; eauto).
+  cbn [open_from hd]. rewrite !orb_true_iff.
+  rewrite (has_open_child_iff k tl (open_from (a_sym a) (S k) tl)) by apply open_from_length.
+  split.
+  - intros [[H|H]|(j & y & A & B & C)]; [left; exact H | right; left; exact H |].
+    right. right. exists (S k + j)%nat, y. split; [lia|]. split; [rewrite <- Htl in A; rewrite nth_error_skipn' in A; exact A|].
+    split; [exact C|].
+    rewrite <- B. rewrite <- Htl. replace (S k) with (0 + S k)%nat at 2 by lia. rewrite <- open_from_skipn.
+    rewrite nth_skipn_shift. reflexivity.
+  - intros [H|[H|(c & y & Hc & A & C & B)]]; [left; left; exact H | left; right; exact H |].
+    right. exists (c - S k)%nat, y. split; [|split; [|exact C]].
+    + rewrite <- Htl, nth_error_skipn'. replace (S k + (c - S k))%nat with c by lia. exact A.
+    + rewrite <- Htl. replace (S k) with (0 + S k)%nat at 2 by lia. rewrite <- open_from_skipn, nth_skipn_shift.
+      replace (S k + (c - S k))%nat with c by lia. exact B.
+Qed.
+
